@@ -81,7 +81,7 @@ type subscriber struct {
 }
 
 func (s *subscriber) markRemoval(seq uint64, why string) {
-	if s.removalBegin == 0 {
+	if s.removalBegin == 0 || seq < s.removalBegin {
 		s.removalBegin, s.removalWhy = seq, why
 	}
 }
